@@ -90,7 +90,7 @@ func genConc(g *sim.Stream, tier string) *concProg {
 		p.M = append(p.M, m)
 		p.Total += m
 		p.SendForm = append(p.SendForm, g.Intn(2))
-		p.PSpawn = append(p.PSpawn, g.Intn(11))
+		p.PSpawn = append(p.PSpawn, g.Intn(12))
 	}
 	for i := 0; i < p.R; i++ {
 		rf := g.Intn(5)
@@ -296,6 +296,16 @@ func genConc(g *sim.Stream, tier string) *concProg {
 			case 10:
 				// spawned code with two deferred closures: both run, in reverse order
 				w("pts.append([pid, spawn(func(id, n) { defer func() { pdone <- id }(); defer func() { ptag(id, id*11+3) }(); return %s(id, n) }, pid, n)])", f)
+			case 11:
+				// a closure (it captures a local of the function that made it) with
+				// a defaulted parameter, spawned with that argument left out
+				w("cd%d := func(tag) { return func(id, cnt=%d) { if tag < 0 { error(\"tag\") }; return %s(id, cnt) } }(pid)", i, p.M[i], f)
+				switch p.M[i] % 2 {
+				case 0:
+					w("pts.append([pid, spawn(cd%d, pid)])", i)
+				default:
+					w("pts.append([pid, cd%d.spawn(pid)])", i)
+				}
 			case 6:
 				// a starter thread that spawns the producer and returns at once:
 				// the producer outlives the thread that started it
